@@ -1,0 +1,13 @@
+//go:build verif
+// +build verif
+
+// Contracts for package waiter, read only by the verifier in /verif (build tag verif).
+// This file contains no code.
+
+package waiter
+
+// ASSUMED towards callers in the protocol packages: notifying a queue changes no protocol
+// state. (The only EntryCallback implementation in this module is channelCallback, a
+// non-blocking send on the entry's channel; channels are not part of the heap model.)
+//@ func (*Queue).Notify props C07 C11
+//@   trusted
